@@ -225,6 +225,10 @@ func (s *Server) decide(transport string, conn int64, raw []byte) *action {
 	return a
 }
 
+// SetSerialBase makes the serials of this server start above n (two servers with the same tag can
+// then be told apart by the serials in their replies).
+func (s *Server) SetSerialBase(n uint32) { s.serial.Store(n) }
+
 func (s *Server) sent(a *action) {
 	s.mu.Lock()
 	a.ql.TSend = clock.Now()
